@@ -9,7 +9,7 @@ def errName : Err → String
   | .keyError => "KeyError" | .indexError => "IndexError" | .valueError => "ValueError" | .typeError => "TypeError"
   | .moduleNotFound => "ModuleNotFoundError" | .notImplemented => "NotImplementedError" | .syntaxError => "SyntaxError"
   | .assertionError => "AssertionError" | .ioError => "OSError" | .attributeError => "AttributeError"
-  | .stopIteration => "StopIteration" | .entry c => c | .outside w => "outside:" ++ w
+  | .stopIteration => "StopIteration" | .os c => c | .entry c => c | .outside w => "outside:" ++ w
 
 def emitOf : String → Except String EmitKind
   | "argparse" => pure .argparse | "class" => pure .class_ | "function" => pure .function | "json_schema" => pure .jsonSchema
@@ -101,9 +101,17 @@ def inputOf (j : Json) : Except String InputFile := do
     return .py (← a.toList.mapM entryOf)
 
 def effJ : Eff → Json
-  | .isfile _ => Json.str "isfile"
-  | .raise e => Json.str ("raise:" ++ errName e)
-  | .append _ => Json.str "append"
+  | .isfile p => Json.arr #[Json.str "isfile", Json.str p]
+  | .raise e => Json.arr #[Json.str ("raise:" ++ errName e)]
+  | .openAppend p => Json.arr #[Json.str "open-append", Json.str p]
+  | .write p => Json.arr #[Json.str "write", Json.str p]
+
+/-- the file system facts the harness measured for the raw output argument (OS semantics, not cdd's) -/
+def fsOf (j : Json) : FS :=
+  { isfile := fun _ => flag j "exists",
+    openAppend := fun _ => match getStr j "open_error" with
+      | .ok c => .error (.os c)
+      | .error _ => .ok () }
 
 def ops : List (String × Handler) := [
   ("c19.fmt", fun j => do
@@ -163,7 +171,7 @@ def ops : List (String × Handler) := [
     let run := gen W cfg input
     let output := (getStr j "output").toOption.getD "out.py"
     let phase := (getInt j "phase").toOption.getD 0
-    let trace := mainGen (fun _ => flag j "exists") output phase run
+    let trace := mainGen (fsOf j) output phase run
     -- expected symbol names by the emitters' naming contract
     let expected : List Json := match fileToInputMapping cfg.parse input with
       | .error _ => []
